@@ -21,6 +21,9 @@ func genCase(t *rapid.T) Case {
 		c.FailErr = gen.SmallErr().Draw(t, "fail-err")
 		c.FailNilCtx = rapid.Bool().Draw(t, "fail-returns-nil-context")
 	}
+	if c.NMW > 0 && rapid.IntRange(0, 2).Draw(t, "deadline-middleware") == 0 {
+		c.DeadlineMW = 1 + rapid.IntRange(0, c.NMW-1).Draw(t, "deadline-at")
+	}
 	c.Auth = rapid.SampledFrom([]string{"none", "none", "accept", "accept", "reject"}).Draw(t, "auth")
 	c.Term = rapid.SampledFrom([]string{"none", "ok", "ok", "fail"}).Draw(t, "term")
 	c.End = rapid.SampledFrom([]string{"terminate", "eof", "terminate+more"}).Draw(t, "end")
